@@ -292,16 +292,31 @@ func (res *Response) Less(idx1, idx2 int) bool {
 			}
 
 			return valueA > valueB
-		case JSONCol, StringCol, StringLargeCol, StringListCol, Int64ListCol:
-			// lists are compared by their printed form, so that the order is defined and later sort keys still count
+		case JSONCol, StringCol, StringLargeCol, StringListCol, Int64ListCol, ServiceMemberListCol, InterfaceListCol:
+			// the same keys the sort of a local result uses (RawResultSet.Less): lists by their joined elements
 			index := field.Index
 			if field.Group {
 				index = 0
 			}
-			str1 := interface2stringNoDedup(res.result[idx1][index])
-			str2 := interface2stringNoDedup(res.result[idx2][index])
+			str1 := resultSortKey(res.result[idx1][index], sortType)
+			str2 := resultSortKey(res.result[idx2][index], sortType)
 			if str1 == str2 {
 				continue
+			}
+			if field.Direction == Asc {
+				return str1 < str2
+			}
+
+			return str1 > str2
+		case CustomVarCol:
+			str1 := resultCustomVar(res.result[idx1][field.Index], field.Args)
+			str2 := resultCustomVar(res.result[idx2][field.Index], field.Args)
+			if str1 == str2 {
+				continue
+			}
+			// empty values go last (first when descending), as in RawResultSet.Less
+			if str1 == "" || str2 == "" {
+				return (str2 == "") == (field.Direction == Asc)
 			}
 			if field.Direction == Asc {
 				return str1 < str2
@@ -314,6 +329,44 @@ func (res *Response) Less(idx1, idx2 int) bool {
 	}
 
 	return true
+}
+
+// resultSortKey returns the sort key of a result cell, the string DataRow.GetString returns for the stored value.
+func resultSortKey(raw interface{}, dataType DataType) string {
+	list, ok := raw.([]interface{})
+	if !ok {
+		return interface2stringNoDedup(raw)
+	}
+	switch dataType {
+	case StringListCol:
+		parts := make([]string, len(list))
+		for i := range list {
+			parts[i] = interface2stringNoDedup(list[i])
+		}
+
+		return strings.Join(parts, ListSepChar1)
+	case Int64ListCol:
+		parts := make([]string, len(list))
+		for i := range list {
+			parts[i] = strconv.FormatInt(interface2int64(list[i]), 10)
+		}
+
+		return "[" + strings.Join(parts, ListSepChar1) + "]"
+	default:
+		return interface2stringNoDedup(raw)
+	}
+}
+
+// resultCustomVar returns the value of a custom variable from a custom_variables result cell.
+func resultCustomVar(raw interface{}, name string) string {
+	switch vars := raw.(type) {
+	case map[string]interface{}:
+		return interface2stringNoDedup(vars[name])
+	case map[string]string:
+		return vars[name]
+	}
+
+	return ""
 }
 
 // Swap replaces two data rows while sorting.
